@@ -68,7 +68,11 @@ Step(s, D, ev) ==
       \* didOpen of a document whose text is what is on disk (an UNMODIFIED document): main.rs analyses it like any other
       \* notification, i.e. the file's definitions are removed and registered again -- at the END of their vectors
       [] ev.t = "open" -> [s EXCEPT !.ix = AnalyzeFnD(s.ix, D, ev.f, DiskOf[ev.f], TRUE), !.ans = <<>>]
-      [] ev.t = "close" -> [s EXCEPT !.ix = DropCaches(@, ev.f), !.ans = <<>>]
+      [] ev.t = "close" -> [s EXCEPT !.ix = CloseFn(@, D, ev.f), !.ans = <<>>]
+      \* didClose of a MODIFIED document (edits never saved): the same code path.  What a fresh server would answer afterwards is
+      \* not judged (the index keeps the buffer's records, imports are read from disk again); judged is only that an EARLIER
+      \* QUERY is invisible: the cold twin performs the same edits AND this close (EditsOf keeps it)
+      [] ev.t = "closem" -> [s EXCEPT !.ix = CloseFn(@, D, ev.f), !.ans = <<>>]
       [] ev.t = "evict" -> [s EXCEPT !.ix = DropCaches(@, ev.f), !.ans = <<>>]
 
 RECURSIVE RunFrom(_, _, _)
@@ -76,7 +80,7 @@ RunFrom(s, D, h) == IF h = <<>> THEN s ELSE RunFrom(Step(s, D, Head(h)), D, Tail
 Run(h, D) == RunFrom(InitSt, D, h)
 
 IsQuery(ev) == ev.t \in {"avail", "goto", "imported", "cycles"}
-EditsOf(h) == SelectSeq(h, LAMBDA ev : ev.t \in {"edit", "scan"})
+EditsOf(h) == SelectSeq(h, LAMBDA ev : ev.t \in {"edit", "scan", "closem"})
 NonEdits(h) == Len(SelectSeq(h, LAMBDA ev : ev.t \notin {"edit", "scan"}))
 
 Ev(t, f, v, n) == [t |-> t, f |-> f, v |-> v, n |-> n]
@@ -94,6 +98,8 @@ Events(s) ==
     \cup (IF "open" \in EventKinds
           THEN { Ev("open", f, 0, "-") : f \in { g \in Files : DiskOf[g] # NoMod /\ DiskOf[g].valid
                                                                /\ (s.ix.cached[g] = NoMod \/ s.ix.cached[g] = DiskOf[g]) } } ELSE {})
+    \cup (IF "closem" \in EventKinds
+          THEN { Ev("closem", f, 0, "-") : f \in { g \in Files : s.ix.cached[g] # NoMod /\ s.ix.cached[g] # DiskOf[g] } } ELSE {})
     \cup (IF "evict" \in EventKinds
           THEN { Ev("evict", f, 0, "-") : f \in { g \in Files : s.ix.cached[g] # NoMod /\ s.ix.cached[g] = DiskOf[g] } } ELSE {})
     \cup (IF "scan" \in EventKinds /\ ~s.scanned THEN { Ev("scan", "-", 0, "-") } ELSE {})
@@ -263,7 +269,10 @@ HVersions7 ==
                           Module(<<>>),
                           \* the same fixture NAMES with and without a dependency cycle between them
                           Module(<<PlainDef("n", <<"x">>), PlainDef("x", <<"n">>)>>),
-                          Module(<<PlainDef("n", <<"x">>), PlainDef("x", <<>>)>>) >>
+                          Module(<<PlainDef("n", <<"x">>), PlainDef("x", <<>>)>>),
+                          \* the importing conftest goes UNPARSABLE (its star import is still in the text): whatever a query made
+                          \* of the parsable version before must not be served now
+                          Broken(<<Star("h")>>) >>
          \* the test module ON DISK imports the fixture BY NAME itself (`from ..helperh import n`): whatever a server makes of
          \* a module's own imports must survive closing the unmodified document (close events need the disk version)
          [] f = "t" -> << Module(<<Spelled(Imp("h", "n"), 2), Test("test_1", <<"n">>)>>),
@@ -275,6 +284,7 @@ HVersions7 ==
 HDisk7 == [f \in HFiles |-> HVersions7[f][1]]
 HKindsEdit == {"edit"}
 HKinds7 == {"edit", "avail", "goto", "imported", "cycles", "close", "evict"}
+HKinds7Mod == {"edit", "avail", "goto", "imported", "closem"}
 HKinds7Scan == {"avail", "goto", "imported", "close", "evict", "scan", "edit"}
 
 \* C07, conftest CHAIN universe: c0 (R) and c1 (R/a) both star-import the shared module m (R/a), which
